@@ -657,6 +657,10 @@ PROPS = {
                 "reached by a different history; distinct = distinct (operation form, previous operation on the same register, length "
                 "class, capacity/length class or sign)"),
             Job("c04", "std-release", 100_000, 2_000_000, "same plans in the release harness (no debug assertions in eq/cmp/hash)"),
+            Job("c17", "std-debug", 150_000, 3_000_000,
+                "the serde exchange plans (peer faults incl. a decode that fails part-way into an existing object), swept only for objects "
+                "that arrive, or are left behind by a failed deserialize_in_place, in a form that is not the canonical one of their value",
+                only=r"^(canonical|inplace-after-error|denotation)$", relabel="C04"),
         ],
         assumptions=[
             "denote(): iter_u64_digits() + sign() as observation channel, trailing zero digits kept visible",
@@ -769,6 +773,11 @@ PROPS = {
                 "distinct = distinct (exchange kind, length class, parity/top-half-zero, fault kind, hint kind, route)"),
             Job("c17", "std-release", 200_000, 20_000_000, "same plans in the release harness (no debug assertions)"),
             Job("c17", "nostd-debug", 100_000, 4_000_000, "same plans against the no_std + serde build of the library"),
+            Job("c17h", ["std-debug", "std-release"], 60_000, 1_500_000,
+                "value histories instead of peer histories: the register-machine plans of C04 (constructors, every operator form, "
+                "in-place mutation, arrivals, injected documented failures); after every step each object the step wrote is serialized "
+                "with the token recorder, compared with the portable form of the integer it denotes (sign token, minimal u32 digits, "
+                "exact length) and read back; distinct = distinct operation forms whose result was exchanged"),
         ],
         assumptions=[
             "token-level reference model of the documented format (Seq(len) U32* End / Tuple(2) I8 Seq.. End)",
